@@ -54,7 +54,7 @@ def upd (f : Nat → List Nat) (a : Nat) (l : List Nat) : Nat → List Nat :=
 def link (f : Nat → List Nat) (father son : Nat) : Nat → List Nat := upd f father (f father ++ [son])
 
 /-- `InitQCTree(startHeight, ledger, log)` (kernel/consensus/base/common/common.go, after the `fix:`
-commit e280267 recorded in known_findings.d/C15.json) over a ledger whose main chain holds the blocks
+commit c73d582 recorded in known_findings.d/C15.json) over a ledger whose main chain holds the blocks
 of the heights `0..tip`; `chain h` is the id of the block of height `h` (`makeTreeNode` gives it view
 `h` and the parent id `chain (h-1)`).  `none` = the function returns nil: the block `start - 1` that
 becomes the genesis QC is not on the ledger.
